@@ -27,13 +27,13 @@ ASSUMPTIONS = [
     "the scored ranking search(q, limit=None) (score desc, doc number asc) is the oracle ranking for collapse / filter / paging and its "
     "scores are the ScoreFacet keys (scoring itself: C05/C09); it is checked to contain exactly the model's matched set",
     "groups: the name of the group holding documents WITHOUT the key is not specified (None, '' or the column default): required is only that "
-    "these documents sit together in one group that holds nothing else; for allow_overlap facets documents without any value may also be in no group",
+    "these documents sit together in one group that holds nothing else (float columns: the default is NaN, and since NaN != NaN each such document "
+    "is a NaN-named group of its own - accepted); for allow_overlap facets documents without any value may also be in no group",
     "QueryFacet dictionaries used for sorting/non-overlapping grouping are disjoint (which name wins for a document matching two queries is unspecified)",
     "collapse: documents without the collapse key are never eliminated (documented); with a numeric collapse column the missing documents carry the column "
     "default and are indistinguishable from a real key, so numeric collapse keys are only used on corpora where every matched document has the key",
     "page number beyond the last page: the ResultsPage docstring (clamp to the last page) and the search_page docstring (ValueError) disagree; both accepted",
-    "filtered_count and collapsed_counts are compared exactly only for unlimited or sorted searches (a top-N collector that skips blocks does not see every "
-    "filtered/eliminated document); under a scored limit collapsed_counts may only under-count",
+    "filtered_count is compared only for unlimited or sorted searches (a top-N collector that skips blocks does not see every filtered document)",
 ]
 SHARDS = {"quick": 4, "thorough": 16}
 BUDGET_S = {"quick": 80, "thorough": 800}
@@ -600,7 +600,16 @@ def check_groups(env, nviews):
                 bad = "group %r holds %r, expected %r" % (name, rest[name], expect(dns))
                 break
             del rest[name]
-        if bad is None:
+        if bad is None and sp.kind.startswith("field:fl") and len(rest) > 1 and all(isinstance(nm, float) and nm != nm for nm in rest):
+            # float column: the default is NaN and NaN != NaN, so every document without a value is a group of its own (assumption)
+            ctx.count("c14.group.nan_singletons")
+            members = sorted(dn for v in rest.values() for dn in ([v] if isinstance(v, int) and mtname == "Best" else (v if isinstance(v, list) else [])))
+            if mtname == "Count":
+                if sum(rest.values()) != len(nokey):
+                    bad = "NaN groups count %r documents, %d lack the key" % (sum(rest.values()), len(nokey))
+            elif members != sorted(nokey):
+                bad = "NaN groups hold %r, documents without the key: %r" % (members, sorted(nokey))
+        elif bad is None:
             # what remains may only be the single group of the documents without the key
             if len(rest) > 1:
                 bad = "extra groups %r" % (sorted(map(repr, rest)),)
@@ -622,7 +631,20 @@ def check_groups(env, nviews):
     # several facets at once
     ctx.count("c14.group.evals")
     extra = {"view": "groupedby=['tag', 'n', 'b']"}
-    ok, val = env.guard("group", extra, lambda: s.search(q, limit=3, groupedby=["tag", "n", "b"]))
+    form = rng.choice(["list", "dict", "Facets"])
+
+    def multi():
+        from whoosh import sorting
+        if form == "list":
+            return s.search(q, limit=3, groupedby=["tag", "n", "b"])
+        if form == "dict":
+            return s.search(q, limit=3, groupedby={"tag": sorting.FieldFacet("tag"), "n": sorting.FieldFacet("n"), "b": sorting.FieldFacet("b")})
+        fs = sorting.Facets()
+        fs.add_field("tag").add_field("n")
+        fs.add_facet("b", sorting.FieldFacet("b"))
+        return s.search(q, limit=3, groupedby=fs)
+    extra = {"view": "groupedby=['tag', 'n', 'b'] given as %s" % form}
+    ok, val = env.guard("group", extra, multi)
     if ok:
         for f in ("tag", "n", "b"):
             g = val.groups(f)
@@ -642,7 +664,7 @@ def check_groups(env, nviews):
 
 
 def check_collapse(env, nviews):
-    from whoosh import sorting
+    from whoosh import sorting, query
     ctx, rng, s, q = env.ctx, env.rng, env.s, env.q
     shapes = []
     for _ in range(nviews):
@@ -654,6 +676,11 @@ def check_collapse(env, nviews):
         sortedby = rng.choice([None, None, "o", "id", "n"])
         order = rng.choice([None, None, None, "o", "o-rev"])
         kw = {"collapse": keyf, "collapse_limit": n}
+        if rng.random() < 0.2:
+            kw["terms"] = True
+        if rng.random() < 0.15:
+            fw = rng.choice(WORDS)
+            kw["filter"] = query.Term("t", fw)
         if sortedby == "n" and any(env.doc(dn).get("n") is None for dn in env.matched):
             sortedby = "o"
         if sortedby:
@@ -661,6 +688,8 @@ def check_collapse(env, nviews):
             ranking = sorted(env.matched, key=lambda dn: (env.doc(dn)[sortedby], dn))
         else:
             ranking = env.full
+        if "filter" in kw:
+            ranking = [dn for dn in ranking if fw in env.doc(dn)["t"].split()]
         pos = dict((dn, i) for i, dn in enumerate(ranking))
         if order == "o":
             kw["collapse_order"] = sorting.FieldFacet("o")
@@ -670,7 +699,8 @@ def check_collapse(env, nviews):
             pref = lambda dn: (-env.doc(dn)["o"], dn)
         else:
             pref = lambda dn: pos[dn]
-        desc = "collapse=%r collapse_limit=%d collapse_order=%r sortedby=%r limit=%r" % (keyf, n, order, sortedby, k)
+        desc = "collapse=%r collapse_limit=%d collapse_order=%r sortedby=%r limit=%r%s%s" % (
+            keyf, n, order, sortedby, k, " terms=True" if kw.get("terms") else "", " filter=Term('t', %r)" % fw if "filter" in kw else "")
         extra = {"view": desc}
         ctx.count("c14.collapse.evals")
         # model: best n per key by `pref`, presented in ranking order
@@ -692,7 +722,8 @@ def check_collapse(env, nviews):
             continue
         got = [h.docnum for h in r]
         want = exp if k is None else exp[:k]
-        mech = "%s%s%s" % ("sorted" if sortedby else "scored", "+order" if order else "", "" if k is None else "+limit")
+        mech = "%s%s%s%s" % ("sorted" if sortedby else "scored", "+order" if order else "", "" if k is None else "+limit",
+                               "+filter" if "filter" in kw else "")
         if got != want:
             env.fail("collapse", "hits:" + mech, dict(extra, expected=env.ids(want), observed=env.ids(got), uncollapsed_ranking=env.ids(ranking),
                                                      keys=[(env.id_of[dn], env.doc(dn).get(keyf)) for dn in ranking]))
@@ -704,15 +735,7 @@ def check_collapse(env, nviews):
             fb = s.schema["b"]
             cc = dict(({fb.from_bytes(fb.to_bytes(True)): True, fb.from_bytes(fb.to_bytes(False)): False}.get(kx, kx), v) for kx, v in cc.items())
         ctx.count("c14.collapse.counts_evals")
-        if k is not None and not sortedby and not order:
-            # a top-N collector that skips blocks does not see every eliminated document: never more than the truth
-            exact = False
-            okc = all(kx in counts and v <= counts[kx] for kx, v in cc.items())
-        else:
-            exact = True
-            okc = cc == counts
-            ctx.count("c14.collapse.counts_exact_evals")
-        if not okc:
+        if cc != counts:
             env.fail("collapse", "collapsed_counts:" + mech, dict(extra, expected=dict((repr(a), b) for a, b in counts.items()),
                                                                  observed=dict((repr(a), b) for a, b in cc.items())))
             continue
@@ -747,8 +770,18 @@ def check_filters(env, nviews):
             docs = set(dn for dn in live if w in env.doc(dn)["t"].split())
             return ("results" + (":empty" if not docs else "") + (":limited" if lim else ""),
                     (lambda: s.search(query.Term("t", w), limit=lim)), docs, "Results of search(Term('t', %r), limit=%r)" % (w, lim))
-        if r < 0.8:
+        if r < 0.76:
+            w = rng.choice(WORDS + ["zzz"])
+            docs = set(dn for dn in live if w in env.doc(dn)["t"].split())
+            return ("resultspage" + (":empty" if not docs else ""), (lambda: s.search_page(query.Term("t", w), 1, pagelen=2)), docs,
+                    "ResultsPage search_page(Term('t', %r), 1, pagelen=2)" % w)
+        if r < 0.82:
             return "set:empty", (lambda: set()), set(), "set()"
+        if r < 0.88:
+            from whoosh.idsets import BitSet
+            size = rng.randint(0, max(1, len(live)))
+            docs = set(rng.sample(live, min(size, len(live))))
+            return "bitset" + (":empty" if not docs else ""), (lambda: BitSet(sorted(docs), size=max(live) + 1)), docs, "BitSet(%r)" % sorted(docs)
         size = rng.randint(1, max(1, len(live)))
         docs = set(rng.sample(live, min(size, len(live))))
         if rng.random() < 0.3:
@@ -782,10 +815,14 @@ def check_filters(env, nviews):
         if (fk and "empty" in fk) or (mk and "empty" in mk):
             ctx.count("c14.filter.empty_operand")
 
+        terms = rng.random() < 0.2
+
         def run():
             kw = dict((name, mk_()) for name, mk_ in parts.items())
             if sortedby:
                 kw["sortedby"] = sortedby
+            if terms:
+                kw["terms"] = True
             return s.search(q, limit=k, **kw)
         ok, r = env.guard("filter", extra, run)
         if not ok:
